@@ -13,7 +13,7 @@
 //!         (the model reads <abstract>, the crate parses <fonthex>; both are produced from one recipe)
 //!   tagfeat <fonthex> <abstract> <t> <script index> <lang index|-> <feature tag>  -> notable | - | <feature index>
 //!   tagplan <fonthex> <abstract> <dir 0..3> <script|-> <lang|->
-//!         -> <shaper> <gsub: found,scriptidx,chosen,langidx> <gpos: ...>   (ot_map builder + plan)
+//!         -> <shaper> <gsub: found,scriptidx,chosen,langidx,reqidx:reqtag> <gpos: ...>   (ot_map builder + plan)
 //! An empty list is printed as `-`.
 use super::util::hex_bytes;
 use rustybuzz::verif as v;
@@ -183,11 +183,42 @@ pub fn handle(toks: &[&str], _st: &mut crate::State) -> Option<String> {
             let l = xs(toks.get(5)?)?.and_then(|s| Language::from_str(&s).ok());
             let sel = v::map::builder_selection(&face, sc, l.as_ref());
             let plan = ShapePlan::new(&face, d, sc, l.as_ref(), &[]);
-            let (name, _chosen, _found) = v::plan::plan_info(&plan);
-            let f = |x: &(bool, Option<u16>, Option<u32>, Option<u16>)| {
-                format!("{},{},{},{}", x.0 as u8, ou(x.1), ou(x.2), ou(x.3))
+            let (name, chosen, found) = v::plan::plan_info(&plan);
+            // required feature of the selected langsys, read through the per-table hook with the same tag lists
+            let (st, lt) = v::tag::tags(sc.map(|s| s.tag().as_u32()), l.as_ref().map(|l| l.as_str()));
+            let f = |i: usize| {
+                let x = &sel[i];
+                let req = match v::layout::select(&face, i, &st, &lt) {
+                    Some(Some(s)) => {
+                        if (s.found, Some(s.script_index), Some(s.chosen_script), s.lang_index)
+                            != (x.0, x.1, x.2, x.3)
+                        {
+                            "MISMATCH".to_string()
+                        } else {
+                            s.required.map_or("-".into(), |(i, t)| format!("{}:{}", i, t))
+                        }
+                    }
+                    _ => {
+                        if x.1.is_some() {
+                            "MISMATCH".to_string()
+                        } else {
+                            "-".into()
+                        }
+                    }
+                };
+                // the compiled plan must carry the same chosen script / found flag as the builder
+                let planok = chosen[i] == x.2 && found[i] == x.0;
+                format!(
+                    "{},{},{},{},{}{}",
+                    x.0 as u8,
+                    ou(x.1),
+                    ou(x.2),
+                    ou(x.3),
+                    req,
+                    if planok { "" } else { ",PLAN-MISMATCH" }
+                )
             };
-            Some(format!("{} {} {}", name, f(&sel[0]), f(&sel[1])))
+            Some(format!("{} {} {}", name, f(0), f(1)))
         }
         _ => None,
     }
